@@ -973,11 +973,7 @@ impl<'a, E: quiver_core::effects::Effect> Compiler<'a, E> {
             // Every field is evaluated whether or not a match in an earlier field succeeded, so
             // a narrowing recorded by one field's match must not be in force for the fields
             // after it (nor after the tuple): `[a =7, a =A]` tests `a` against `A` at run time.
-            let narrowings_before: Vec<_> = self
-                .scopes
-                .iter()
-                .map(|scope| scope.narrowings.clone())
-                .collect();
+            let narrowings_before = scopes::save_narrowings(&self.scopes);
             let (field_type, field_prov) = match &field.value {
                 ast::FieldValue::Chain(chain) => {
                     // Each field chain receives a copy of the enclosing (piped) value as its
@@ -1007,9 +1003,7 @@ impl<'a, E: quiver_core::effects::Effect> Compiler<'a, E> {
                     unreachable!("Spread should be handled by compile_tuple_with_spread")
                 }
             };
-            for (scope, narrowings) in self.scopes.iter_mut().zip(narrowings_before) {
-                scope.narrowings = narrowings;
-            }
+            scopes::restore_narrowings(&mut self.scopes, narrowings_before);
             // Grow the bindings by unifying the expected field type against the compiled type, so a
             // later field's expected type sees the variables this field pinned. Best-effort: a
             // mismatch here is reported properly later, when the whole tuple is applied to the
